@@ -387,7 +387,20 @@ def _build_from_config(case, o: Oracle, roots, used, isk, user_data, commands, s
     if case["description"]:
         cfg["description"] = case["description"]
     if case["encrypted"]:
-        cfg["containerKeyBlobEncryptionKey"] = bytes(pck).hex()
+        # the part-common key inline (bare, 0x, upper case), in a text file (with or without a line end) or in a binary file
+        how = hashlib.sha256(b"pck" + bytes(pck)).digest()[0] % 6
+        text = bytes(pck).hex()
+        if how in (0, 1, 2):
+            cfg["containerKeyBlobEncryptionKey"] = [text, "0x" + text, text.upper()][how]
+        elif how in (3, 4):
+            with open(os.path.join(wd, "pck.txt"), "w", newline="") as f:
+                f.write(text + ("\n" if how == 4 else ""))
+            cfg["containerKeyBlobEncryptionKey"] = "pck.txt"
+        else:
+            with open(os.path.join(wd, "pck.bin"), "wb") as f:
+                f.write(bytes(pck))
+            cfg["containerKeyBlobEncryptionKey"] = "pck.bin"
+        o.label("cfg_pck:" + ["bare", "0x", "upper", "text_file", "text_file_line_end", "bin_file"][how])
     cfg = reorder(cfg, order_salt)
     o.label("cfg_key_order:%d" % (order_salt % 3))
     with o.spsdk("config", "check_config"):
